@@ -1,8 +1,9 @@
 /-
   Engine `analyse` (C05 / C20): `(analyse (vars (v <type> <ext> <repComp>)*) (eqs (e <comp> (vars i*) (odes i*) (all i*) <lhs> <rhs>)*))`
-  → `type <model type> vars <ty>:<idx|->,… eqs <ty>:<unknown>+…,…`
+  → `type <model type> vars <ty>:<idx|->,… eqs <ty>:<unknown>+…,… deps <equation>+…,…` (the equations each equation depends on)
 -/
 import Cellml.Analyser.Model
+import Cellml.Analyser.Deps
 import Cellml.Wire
 namespace Cellml.Engine.Analyse
 open Cellml.Analyser Cellml.Wire
@@ -54,6 +55,7 @@ def answer (line : String) : String :=
       let fi := finalIndices s.vars
       "type " ++ showMT (modelType s) ++ " vars " ++ ",".intercalate ((s.vars.zip fi).map fun (v, i) => (if v.ext then "external" else showVT v.ty) ++ ":" ++ showIdx i)
         ++ " eqs " ++ ",".intercalate (s.eqs.map fun e => showET e.ty ++ ":" ++ "+".intercalate (e.unknowns.map toString))
+        ++ " deps " ++ ",".intercalate ((List.range s.eqs.length).map fun i => "+".intercalate ((eqDeps s i).map toString))
     | _, _ => "bad-line"
   | _ => "bad-line"
 
